@@ -5,6 +5,7 @@ import (
 	"fmt"
 	"math/rand"
 	"os"
+	"runtime"
 	"strings"
 	"sync"
 	"sync/atomic"
@@ -243,6 +244,24 @@ func c09TrackedHistory(rep *Report, m *model.Client, cfg engine.Config, ops []en
 }
 
 // watchdog runs fn; if it does not return within d the hang is reported.
+// txfileStacks returns the stacks of all goroutines that are inside go-txfile (diagnosis of hangs).
+func txfileStacks() string {
+	buf := make([]byte, 1<<20)
+	buf = buf[:runtime.Stack(buf, true)]
+	var out []string
+	for _, g := range strings.Split(string(buf), "\n\n") {
+		if strings.Contains(g, "go-txfile") && !strings.Contains(g, "txfileStacks") {
+			if len(g) > 1500 {
+				g = g[:1500]
+			}
+			out = append(out, g)
+		}
+	}
+	return strings.Join(out, "\n\n")
+}
+
+// watchdog runs fn and reports whether it returned. A call that is still running after d gets twice that
+// time again before it is declared stuck (a loaded machine must not look like a deadlock).
 func watchdog(d time.Duration, fn func()) bool {
 	done := make(chan struct{})
 	go func() { defer close(done); defer func() { recover() }(); fn() }()
@@ -250,6 +269,11 @@ func watchdog(d time.Duration, fn func()) bool {
 	case <-done:
 		return true
 	case <-time.After(d):
+	}
+	select {
+	case <-done:
+		return true
+	case <-time.After(2 * d):
 		return false
 	}
 }
@@ -531,6 +555,7 @@ func stressOnce(seed int64, nReaders, nWriters, txPerWriter int, withObserver bo
 	if !watchdog(60*time.Second, wgW.Wait) {
 		s, p, rs := txfile.VerifLockState(f)
 		fail("writer goroutines do not finish (deadlock?); lock state (%s)", lkString(s, p, rs))
+		fail("stacks: %s", txfileStacks())
 		close(stop)
 		return fails
 	}
@@ -538,6 +563,7 @@ func stressOnce(seed int64, nReaders, nWriters, txPerWriter int, withObserver bo
 	if !watchdog(30*time.Second, wg.Wait) {
 		s, p, rs := txfile.VerifLockState(f)
 		fail("reader goroutines do not finish (deadlock?); lock state (%s)", lkString(s, p, rs))
+		fail("stacks: %s", txfileStacks())
 		return fails
 	}
 	if s, p, rs := txfile.VerifLockState(f); s != 0 || p || rs {
@@ -545,6 +571,7 @@ func stressOnce(seed int64, nReaders, nWriters, txPerWriter int, withObserver bo
 	}
 	if !watchdog(10*time.Second, func() { f.Close() }) {
 		fail("File.Close does not return")
+		fail("stacks: %s", txfileStacks())
 	}
 	mu.Lock()
 	defer mu.Unlock()
